@@ -109,7 +109,9 @@ def parseClientData (val : Bytes) : M ClientData := do
   match r with
   | .decodeError => throw (libErr .InvalidJSONStructure "clientdata.json")
   | .otherError c =>
-    if c.startsWith "oom:" then throw (oomErr c) else throw (nonlibErr c "clientdata.json")
+    if c.startsWith "oom:" then throw (oomErr c)
+    else if isValueErrorClass c then throw (libErr .InvalidJSONStructure "clientdata.json")
+    else throw (nonlibErr c "clientdata.json")
   | .ok j => liftE (clientDataOfJVal j)
 
 end Webauthn
